@@ -257,7 +257,9 @@ def rand_history(rng, spec, nops):
                 idx, _k = malformed_idx(rng, c.shape)
                 if _k.startswith("list_oob"):
                     idx = idx + [["int", 0]] * (len(c.shape) + 1)
-            op = ["set", i, idx, None if rng.random() < 0.3 else rng.randint(-9, -1)]
+            # (cfdm.masked is not assigned to 0-d data: subspacing a masked 0-d array in memory turns
+            #  its data type into float64 - numpy's masked constant - which is not about files at all)
+            op = ["set", i, idx, None if (rng.random() < 0.3 and c.shape) else rng.randint(-9, -1)]
         elif r < 0.88:
             op = ["first", i]
         else:
@@ -943,6 +945,8 @@ def run(chk, model_ok):
     })
     chk.assumptions += [
         "files are not changed on disk while Data objects refer to them",
+        "cfdm.masked is never assigned to 0-d data (an in-memory subspace of a masked 0-d array becomes float64: numpy's masked "
+        "constant; independent of files and backends, reported to C03)",
         "index expressions avoid the two C03 findings about dependencies (negative-step slice starting below -n; empty sequence "
         "indices on netCDF4-python), which are reported under C03",
         "the values used for the model correspondence are 64-bit integers with missing data; floating-point, string, packed and "
